@@ -95,7 +95,7 @@ CHECKS.update({
         "the same interval / depth / stop reason / weight from either start, direction threshold exactly 1/2. Exhaustive over RNG "
         "decisions per configuration for maxdepth 2..3 (4 in thorough).",
         "Densities, dimensions (1..6), step sizes and transformations are sampled; configurations with divergences, energy spread > 50 or "
-        "a U-turn product within 1e-7 of zero are inconclusive. Absolute tolerance 64 eps * (pi_a + pi_b) for cancellation in 1 - exp(.).",
+        "a U-turn product within 1e-7 of zero are inconclusive (a criterion on two bit-identical end states is an exact zero and is not screened). Absolute tolerance 64 eps * (pi_a + pi_b) for cancellation in 1 - exp(.).",
         "DESIGN.md §3 C01",
     ),
     "C03": (
